@@ -23,6 +23,7 @@ RULE = (
 ASSUMPTIONS = [
     "the same inner DAG object is called once per outer description; inner DAGs return node results (documented limits)",
 ]
+ATHERIS = True  # thorough tier: 4 of the 16 shards are coverage-guided (vlib/fuzzshard.py)
 BUDGET = {"quick": {"shards": 4, "seconds": 40}, "thorough": {"shards": 16, "seconds": 420}}
 
 
